@@ -116,7 +116,7 @@ func c08Run(r *Run, c c08Config) {
 		o := w.Apply(a)
 		pre = append(pre, a)
 		if !o.OK {
-			r.HarnessError("preamble %s failed: %s%s", a.Desc, o.Err, o.PanicVal)
+			panic(preambleFailed{fmt.Sprintf("%s: %s%s", a.Desc, o.Err, o.PanicVal)})
 		}
 	}
 	do(Act("addRemoteTokenMessenger(9, zero) by A0", &cctptypes.MsgAddRemoteTokenMessenger{From: Owner.Str, DomainId: 9, Address: make([]byte, 32)}))
